@@ -156,4 +156,10 @@ MUTANTS = [
     M("vanish-extract-secrets", F, "def _extract_secrets(", "def _extract_secretsX(", "ANALYSIS-ERROR"),
     M("vanish-route-wrapper", F, "        def route(\n", "        def route_(\n", "ANALYSIS-ERROR",
       edits=[(F, "        return route\n", "        return route_\n")]),
+    # ---- C30.7 (write-enabler guard shared with C24; added after seeded change C30-B)
+    M("enabler-checked-only-when-first-share", "src/allmydata/storage/server.py",
+      "                msf = MutableShareFile(filename, self)\n                msf.check_write_enabler(write_enabler, si_s)\n                shares[sharenum] = msf\n",
+      "                msf = MutableShareFile(filename, self)\n                if not shares:\n                    msf.check_write_enabler(write_enabler, si_s)\n                shares[sharenum] = msf\n", "C30.7"),
+    M("enabler-compared-with-equals", "src/allmydata/storage/mutable.py",
+      "        if not timing_safe_compare(write_enabler, real_write_enabler):", "        if write_enabler != real_write_enabler:", "C30.7"),
 ]
